@@ -1,4 +1,4 @@
-(* Extract.v -- extraction of the executable models to OCaml.
+(* Extract_c18.v -- extraction of the C18 models (HashMap, ZoneMirror) to OCaml.
    ExtrOcamlBasic only: bool, option, list, prod, unit, sumbool map to OCaml's
    own; Z, N, positive, nat, ascii stay extracted inductives.  No Extract
    Constant / Extract Inductive directives of our own. *)
@@ -6,5 +6,5 @@ From Coq Require Import Extraction ExtrOcamlBasic.
 From CgnsV Require Import HashMap ZoneMirror.
 Extraction Language OCaml.
 Set Extraction KeepSingleton.
-Extraction "extracted/model.ml" HashMap.mstep HashMap.empty_map HashMap.hash_cstr
+Extraction "extracted/c18/model.ml" HashMap.mstep HashMap.empty_map HashMap.hash_cstr
   ZoneMirror.zstep ZoneMirror.empty_base.
